@@ -657,6 +657,40 @@ where
             }
         }
     }
+    // component access: array lengths around the largest value of narrow integer types
+    if let Some(comp) = ops.iter().find(|o| o.repr() == ".").and_then(|o| o.bin().ok()) {
+        for len in [0usize, 1, 3, 126, 127, 128, 129, 300] {
+            let arr: smallvec::SmallVec<[f64; 4]> = (0..len).map(|k| k as f64 + 0.5).collect();
+            for idx in [-1i64, 0, 1, 2, 125, 126, 127, len as i64 - 1, len as i64] {
+                let bi = BigInt::from(idx);
+                if !fits(&bi, bits) {
+                    continue;
+                }
+                acc.evaluations += 1;
+                acc.states += 1;
+                acc.transitions += 1;
+                let len_fits = fits(&BigInt::from(len as i64), bits);
+                match guard(|| (comp.apply)(Val::<I, f64>::Array(arr.clone()), Val::Int(to_i(&bi)))) {
+                    Err(p) => {
+                        if which == Which::C17 {
+                            acc.violate(Violation { signature: format!("panic:{tname}:.:{}", panic_site(&p)), what: format!("ValOpsFactory::<{tname},f64> component access panicked on an array of {len} elements, index {idx}: {p}"), case: json!({"engine": "val-op", "op": ".", "args": [format!("array of {len}"), idx.to_string()]}) });
+                        }
+                    }
+                    Ok(v) => {
+                        acc.nontrivial += 1;
+                        let in_range = idx >= 0 && (idx as usize) < len;
+                        if !in_range && !matches!(v, Val::Error(_)) {
+                            acc.violate(Violation { signature: format!("missing-error:{tname}:."), what: format!("{tname}: component {idx} of an array of {len} elements = {v:?}: must be an error value"), case: json!({"engine": "val-op", "op": "."}) });
+                        }
+                        // (an array longer than the largest integer of the type: error or the component)
+                        if in_range && len_fits && which == Which::C16 && !matches!(&v, Val::Float(f) if *f == idx as f64 + 0.5) {
+                            acc.violate(Violation { signature: format!("wrong-result:{tname}:."), what: format!("{tname}: component {idx} of an array of {len} elements = {v:?} instead of Float({})", idx as f64 + 0.5), case: json!({"engine": "val-op", "op": "."}) });
+                        }
+                    }
+                }
+            }
+        }
+    }
     rep.absorb(acc);
     rep.bounds.push(format!("ValOpsFactory::<{tname},f64>: integer operators - abs fact + - * / % ^ << >> x {} boundary integers (all ordered pairs) against exact integer arithmetic, to_int at the type's boundaries: complete", cat.len()));
 }
